@@ -8,24 +8,59 @@ import (
 
 // implements the reverse operation Sel -> string
 
-var specialCharReplacer *strings.Replacer
+const specialChars = ",!\"#$%&'()*+ -./:;<=>?@[\\]^`{|}~"
 
-func init() {
-	var pairs []string
-	for _, s := range ",!\"#$%&'()*+ -./:;<=>?@[\\]^`{|}~" {
-		pairs = append(pairs, string(s), "\\"+string(s))
+// espace special CSS char, so that the result parses back to s as a name.
+// Control characters must be written as hexadecimal escapes : a backslash followed
+// by a line ending is not a valid escape.
+func escape(s string) string {
+	var b strings.Builder
+	for i := 0; i < len(s); i++ {
+		c := s[i]
+		switch {
+		case c < 0x20:
+			fmt.Fprintf(&b, "\\%x ", c)
+		case c == 0x7f || strings.IndexByte(specialChars, c) != -1:
+			b.WriteByte('\\')
+			b.WriteByte(c)
+		default:
+			b.WriteByte(c)
+		}
 	}
-	specialCharReplacer = strings.NewReplacer(pairs...)
+	return b.String()
 }
 
-// espace special CSS char
-func escape(s string) string { return specialCharReplacer.Replace(s) }
+// escapeIdentifier is like escape, for names which must parse as an identifier :
+// a leading digit is written as an hexadecimal escape.
+func escapeIdentifier(s string) string {
+	if s != "" && '0' <= s[0] && s[0] <= '9' {
+		return fmt.Sprintf("\\%x ", s[0]) + escape(s[1:])
+	}
+	return escape(s)
+}
+
+// escapeString escapes the content of a double quoted string.
+func escapeString(s string) string {
+	var b strings.Builder
+	for i := 0; i < len(s); i++ {
+		switch c := s[i]; c {
+		case '"', '\\':
+			b.WriteByte('\\')
+			b.WriteByte(c)
+		case '\n', '\r', '\f':
+			fmt.Fprintf(&b, "\\%x ", c)
+		default:
+			b.WriteByte(c)
+		}
+	}
+	return b.String()
+}
 
 func (c tagSelector) String() string {
 	if c.tag != 0 {
 		return c.tag.String()
 	}
-	return c.tagS
+	return escapeIdentifier(c.tagS)
 }
 
 func (c idSelector) String() string {
@@ -33,7 +68,7 @@ func (c idSelector) String() string {
 }
 
 func (c classSelector) String() string {
-	return "." + escape(c.class)
+	return "." + escapeIdentifier(c.class)
 }
 
 func (c attrSelector) String() string {
@@ -41,7 +76,7 @@ func (c attrSelector) String() string {
 	if c.operation == "#=" {
 		val = c.regexp.String()
 	} else if c.operation != "" {
-		val = fmt.Sprintf(`"%s"`, val)
+		val = fmt.Sprintf(`"%s"`, escapeString(val))
 	}
 
 	ignoreCase := ""
@@ -49,7 +84,7 @@ func (c attrSelector) String() string {
 		ignoreCase = " i"
 	}
 
-	return fmt.Sprintf(`[%s%s%s%s]`, c.key, c.operation, val, ignoreCase)
+	return fmt.Sprintf(`[%s%s%s%s]`, escapeIdentifier(c.key), c.operation, val, ignoreCase)
 }
 
 func (c relativePseudoClassSelector) String() string {
@@ -127,7 +162,7 @@ func (c linkPseudoClassSelector) String() string {
 }
 
 func (c langPseudoClassSelector) String() string {
-	return fmt.Sprintf(":lang(%s)", c.lang)
+	return fmt.Sprintf(":lang(%s)", escapeIdentifier(c.lang))
 }
 
 func (c neverMatchSelector) String() string {
